@@ -208,6 +208,9 @@ def _show(v):
     if nm == "odd":
         return f"{_show(a[0])} & 1"
     if nm == "idx":
+        q = C.fn_parts(a[0]) if not isinstance(a[0], str) else None
+        if q is not None and q[0] == "dec":
+            return f"header word {_show(a[1])}"
         return f"{_show(a[0])}[{_show(a[1])}]"
     if nm in ("bool:Or", "bool:And"):
         return (" or " if nm == "bool:Or" else " and ").join(_show(x) for x in a)
